@@ -766,9 +766,63 @@ def check_long_life(case):
     return True, ["long-life", pattern, "caches=%d" % nc]
 
 
+# ---- a write after a read on the same object ----------------------------------------------------------------------------
+
+READS_BEFORE = ("get", "gets", "get_many", "gets_many")
+
+
+def write_after_read_cases(tier, seed):
+    """one FallbackClient: a read of the key that is answered by cache j (or by none), once or twice, then every mutating
+    operation on that key and on another one - whichever cache has just answered, the write goes to the first"""
+    for n in (2, 3):
+        for holder in list(range(n)) + [None]:
+            for rd in READS_BEFORE:
+                for times in (1, 2):
+                    for op in WRITE_SIG:
+                        for same in (True, False):
+                            yield {"n": n, "holder": holder, "read": rd, "times": times, "op": op, "same_key": same}
+
+
+def check_write_after_read(case):
+    n, holder, rd, op = case["n"], case["holder"], case["read"], case["op"]
+    req, opt = WRITE_SIG[op]
+    log = []
+    key = REQ_VALUES["key"]
+    caches = [Scripted(i, {key} if i == holder else set(), log) for i in range(n)]
+    fc = FallbackClient(caches)
+    for _ in range(case["times"]):
+        r = getattr(fc, rd)(key) if rd in ("get", "gets") else getattr(fc, rd)([key, "another"])
+    token = b"123"
+    if rd == "gets" and holder is not None:
+        token = r[1]                       # the application hands back the token it was given
+    elif rd == "gets_many" and holder is not None:
+        token = r[key][1]
+    del log[:]
+    wkey = key if case["same_key"] else "another"
+    vals = {"key": wkey, "value": 5 if op in ("incr", "decr") else b"payload", "cas": token}
+    args = [vals[r_] for r_ in req]
+    desc = "%s(%r) answered by %s%s, then %s(*%r) on the same FallbackClient over %d caches" % (
+        rd, key, "cache %d" % holder if holder is not None else "no cache", " (twice)" if case["times"] == 2 else "", op, args, n)
+    try:
+        getattr(fc, op)(*args)
+    except Exception as e:  # noqa: BLE001
+        raise Violation(["write-after-read", "raises", op], "%s raised %r" % (desc, e))
+    if len(log) != 1 or log[0][0] != 0 or log[0][1] != op:
+        raise Violation(["write-after-read", "calls", op], "%s produced calls %r, expected exactly one %s on cache 0" % (desc, [(i, nm) for i, nm, _ in log], op))
+    bound = log[0][2]
+    for name, v in zip(req, args):
+        if bound.get(name) != v or type(bound.get(name)) is not type(v):
+            raise Violation(["write-after-read", "args", op, name], "%s: cache 0 received %s=%r, caller meant %r" % (desc, name, bound.get(name), v))
+    for name, default in opt:
+        if bound.get(name) != default:
+            raise Violation(["write-after-read", "args", op, name], "%s: cache 0 received %s=%r, the caller left it at its default %r" % (desc, name, bound.get(name), default))
+    return holder not in (0, None), ["write-after-read", op, rd, "holder=%s" % holder]
+
+
 PARTS = [
     Part("long-lives", "enum", check_long_life, cases=long_life_cases, shards={"quick": 5, "thorough": 15}),
     Part("reads-scripted", "enum", check_read, cases=read_cases, shards={"quick": 2, "thorough": 2}, exhaustive=True),
+    Part("writes-after-reads", "enum", check_write_after_read, cases=write_after_read_cases, shards={"quick": 2, "thorough": 2}, exhaustive=True),
     Part("writes-scripted", "enum", check_write, cases=write_cases, shards={"quick": 2, "thorough": 2}, exhaustive=True),
     Part("reads-key-kinds-and-shapes", "enum", check_key_shapes, cases=key_shape_cases, shards={"quick": 2, "thorough": 2}, exhaustive=True),
     Part("reads-long-key-lists", "enum", check_read_long, cases=long_read_cases, shards={"quick": 4, "thorough": 8}, exhaustive=True),
